@@ -13,6 +13,9 @@
 //!   free choices (call index, menu entry) through `ReadMode::DeviateAt` — exactly the bound-1 schedule set
 //!   of `choose`, without keeping thousands of replay prefixes alive.
 //! * `windows`  — `ChunkBufRead` (`fill_buf` windows chosen by the explorer) in `ReadMode::Choose`.
+//! * `crlf_twins` — the CRLF twin of every text document (plain and bgzipped), eager and lazy, with a refill
+//!   boundary (fill_buf window end / BGZF member end) at every offset of the file, plus BufReader capacities
+//!   1..=48 (thorough 4096); must read like the twin in one piece, which must read like the LF document.
 //! * `uniform`  — OneByte / InterruptEvery / Irregular / a fixed pattern, over every wrapper, including the
 //!   > 64 KiB documents.
 
@@ -652,6 +655,172 @@ fn main() {
                 match compare(&spec[&(di, api)], &log) {
                     None => Ok(()),
                     Some(diff) => Err(violation(d, api, "ChunkBufRead", "fill_buf-windows", adversary, &windows, diff)),
+                }
+            });
+        }
+
+        // ---- crlf_twins: the CRLF twin of every text document (plain and bgzipped), read eagerly and lazily, with a
+        //      refill boundary at EVERY offset of the file: fill_buf windows [0..k) [k..) for every k (bgzipped: a
+        //      BGZF member boundary at uncompressed offset k), and BufReader capacities 1..=c_max (periodic
+        //      boundaries). Oracle: the log of the twin read in one piece — which itself must be the log of the LF
+        //      document (line lengths and the FASTA index's line width aside).
+        {
+            struct Twin {
+                doc: usize,
+                /// The text with CRLF line ends (the document itself when it already has them).
+                text: Arc<Vec<u8>>,
+                bgz: bool,
+                made: bool,
+            }
+            fn strip_sizes(log: &[String]) -> Vec<String> {
+                // "rec[i]: n=12 ..." / "rec[i]: bs=12 ...": byte counts include the line terminator
+                log.iter()
+                    .map(|l| match l.split_once("]: ") {
+                        Some((a, b)) => {
+                            let b = match b.split_once(' ') {
+                                Some((t, rest)) if (t.starts_with("n=") || t.starts_with("bs=")) && t[t.find('=').unwrap() + 1..].bytes().all(|c| c.is_ascii_digit()) => rest,
+                                _ => b,
+                            };
+                            format!("{a}]: {b}")
+                        }
+                        None => l.clone(),
+                    })
+                    .collect()
+            }
+            fn bgz_split(text: &[u8], k: usize) -> Vec<u8> {
+                let mut out = Vec::new();
+                for part in [&text[..k], &text[k..]] {
+                    for c in part.chunks(65280) {
+                        out.extend(vmc::oracle::bgzf::make_block(c, 1));
+                    }
+                }
+                out.extend_from_slice(&vmc::oracle::bgzf::EOF);
+                out
+            }
+            let topts = |d: &Doc, api: Api, len: usize| {
+                let mut o = Opts::for_doc(d).api(api);
+                o.input_len = o.input_len.max(len);
+                o.vpos = false;
+                o
+            };
+            let mut twins: Vec<Twin> = Vec::new();
+            for (i, d) in docs.iter().enumerate() {
+                if d.big || d.raw {
+                    continue;
+                }
+                let plain = matches!(d.format, Format::Sam | Format::Vcf | Format::Bed | Format::Gff | Format::Gtf | Format::Fasta | Format::FastaIndexer | Format::Fastq | Format::Fai);
+                // (bgzipped GFF / GTF / BED / FASTA / FASTQ: the plain twins below are also read through a
+                // bgzf::io::Reader with a member boundary at every offset)
+                let bgz = matches!(d.format, Format::SamGz | Format::VcfGz);
+                if !plain && !bgz {
+                    continue;
+                }
+                let text: &[u8] = if bgz { &d.inner.as_ref().unwrap().bytes } else { &d.bytes };
+                let has_cr = text.contains(&b'\r');
+                let mut t = Vec::with_capacity(text.len() + text.len() / 20);
+                for &c in text {
+                    if c == b'\n' && !has_cr {
+                        t.push(b'\r');
+                    }
+                    t.push(c);
+                }
+                twins.push(Twin { doc: i, text: Arc::new(t), bgz, made: !has_cr });
+            }
+            let c_max = ctx.by_tier(48usize, 4096usize);
+            // (twin, api, one-piece log of the twin, number of cases)
+            let mut rows: Vec<(usize, Api, Arc<Vec<String>>, usize)> = Vec::new();
+            let mut one_piece_diffs: Vec<(usize, Api, (String, String, String))> = Vec::new();
+            for (ti, t) in twins.iter().enumerate() {
+                let d = &docs[t.doc];
+                for &api in Api::all_for(d.format) {
+                    let whole = if t.bgz { bgz_split(&t.text, t.text.len()) } else { t.text.to_vec() };
+                    let log = vnd::read_log(d.format, &whole[..], &topts(d, api, whole.len()));
+                    if t.made && d.format != Format::FastaIndexer {
+                        let lf = vnd::read_log(d.format, &d.bytes[..], &topts(d, api, 0));
+                        if let Some(diff) = compare(&strip_sizes(&lf), &strip_sizes(&log)) {
+                            one_piece_diffs.push((ti, api, diff));
+                        }
+                    }
+                    // native bgzipped: member boundary at every k; plain: fill_buf windows at every k, the same text
+                    // through a bgzf::io::Reader with a member boundary at every k, and the capacities
+                    let n = t.text.len().saturating_sub(1) * if t.bgz { 1 } else { 2 } + if t.bgz { 0 } else { c_max.min(t.text.len()) };
+                    rows.push((ti, api, Arc::new(log), n));
+                }
+            }
+            let mut starts = Vec::new();
+            let mut total = 0usize;
+            for r in &rows {
+                starts.push(total);
+                total += r.3;
+            }
+            ctx.extra("crlf_twins", vmc::json!({"documents": twins.len(), "made_from_lf_documents": twins.iter().filter(|t| t.made).count(), "bgzipped": twins.iter().filter(|t| t.bgz).count(), "cases": total}));
+            let (docs, twins, rows, starts, one_piece_diffs) = (&docs, &twins, &rows, &starts, &one_piece_diffs);
+            ctx.harness(Config::new("crlf_twins", 0), move |ch: &Chooser| -> Outcome {
+                // the twin in one piece against the LF document
+                if ch.free("part", 2) == 0 {
+                    if one_piece_diffs.is_empty() {
+                        ch.desc(|| "every CRLF twin read in one piece gives the log of its LF document".to_string());
+                        return Ok(());
+                    }
+                    let (ti, api, diff) = &one_piece_diffs[ch.free("twin", one_piece_diffs.len())];
+                    let d = &docs[twins[*ti].doc];
+                    let (symptom, exp, obs) = diff.clone();
+                    return Err(Violation::new(
+                        format!("format={} api={api:?} layout=crlf-twin-in-one-piece symptom={symptom}", d.format),
+                        format!("doc={} with every LF replaced by CRLF{}, read from a plain slice with {api:?}; text (hex): {}", d.name, if twins[*ti].bgz { " (uncompressed text; one BGZF member + EOF)" } else { "" }, hex_full(&twins[*ti].text)),
+                        format!("the log of the LF document (byte counts aside); {exp}"),
+                        obs,
+                    ));
+                }
+                let i = ch.free("case", total);
+                let r = starts.partition_point(|&s| s <= i) - 1;
+                let (ti, api, spec, _) = &rows[r];
+                let t = &twins[*ti];
+                let d = &docs[t.doc];
+                let j = i - starts[r];
+                let len = t.text.len();
+                let splits = len.saturating_sub(1);
+                let (log, how, class) = if !t.bgz && j >= splits && j < 2 * splits {
+                    let k = j - splits + 1;
+                    let file = bgz_split(&t.text, k);
+                    let src = noodles_bgzf::io::Reader::new(&file[..]);
+                    (vnd::read_log_bufread(d.format, src, &topts(d, *api, len)), format!("bgzipped (two BGZF members, the first ends at uncompressed offset {k}) and read through bgzf::io::Reader as the BufRead"), "bgzf-member-boundary")
+                } else if j < splits {
+                    let k = j + 1;
+                    if t.bgz {
+                        let file = bgz_split(&t.text, k);
+                        (vnd::read_log(d.format, &file[..], &topts(d, *api, file.len())), format!("two BGZF members, the first ends at uncompressed offset {k}"), "bgzf-member-boundary")
+                    } else {
+                        let src = ChunkBufRead::new(t.text.clone(), ReadMode::Pattern(vec![k, usize::MAX / 4]), None);
+                        (vnd::read_log_bufread(d.format, src, &topts(d, *api, len)), format!("fill_buf windows [0..{k}) [{k}..{len})"), "fill_buf-windows")
+                    }
+                } else {
+                    let c = j - splits * if t.bgz { 1 } else { 2 } + 1;
+                    let src = ChunkReader::new(t.text.clone(), ReadMode::Full, None);
+                    (vnd::read_log(d.format, src, &topts(d, *api, len).capacity(Some(c))), format!("BufReader with capacity {c} over full transfers"), "bufreader-capacity")
+                };
+                ch.desc(|| format!("doc={} (crlf twin) api={api:?} {how}", d.name));
+                ch.obs_hash((t.doc, *api, j));
+                let kk = if j < splits { j } else if !t.bgz && j < 2 * splits { j - splits } else { usize::MAX - 1 };
+                let at_cr = kk + 1 < len && t.text[kk] == b'\r' && t.text[kk + 1] == b'\n';
+                if at_cr {
+                    ch.tag("refill boundary between CR and LF");
+                }
+                match compare(spec, &log) {
+                    None => Ok(()),
+                    Some((symptom, exp, obs)) => Err(Violation::new(
+                        format!("format={} api={api:?} layout=crlf-twin boundary={class} symptom={symptom}", d.format),
+                        format!(
+                            "doc={}{} ({} bytes of text) api={api:?}: {how}{}; text (hex): {}",
+                            d.name,
+                            if t.made { " with every LF replaced by CRLF" } else { "" },
+                            len,
+                            if at_cr { " — the boundary falls between CR and LF" } else { "" },
+                            if len <= 1600 { hex_full(&t.text) } else { vmc::hex(&t.text) }
+                        ),
+                        format!("the log of the same bytes read in one piece; {exp}"),
+                        obs,
+                    )),
                 }
             });
         }
